@@ -6,7 +6,7 @@ package stackitem
 
 //@ prop C17
 //@ import io github.com/nspcc-dev/neo-go/pkg/io
-//@ pkg-invariant errTooBigElements != nil && ErrInvalidType != nil
+//@ pkg-invariant errTooBigElements != nil && ErrInvalidType != nil && ErrRecursive != nil && ErrTooBig != nil && errTooBigSize != nil && ErrUnserializable != nil
 
 // Safety contract of the stack item decoder: for every input stream it neither panics nor
 // allocates more than the element limit allows; the reader stays well-formed.
@@ -37,3 +37,43 @@ package stackitem
 //@ func ToString
 //@ assumed
 //@ pure
+
+// C17, item accounting of the serializer: the count cached for a compound item is the number of
+// items its serialization took from the budget, itself included, so that a repeated occurrence is
+// charged what the first one was (and Serialize accepts exactly what Deserialize will accept).
+//@ prop C17
+//@ func (*SerializationContext).appendVarUint
+//@ assumed
+//@ requires w != nil
+//@ modifies w.data, w.uv, elems(byte)
+//@ package github.com/nspcc-dev/neo-go/pkg/encoding/bigint
+// The encoder writes into the buffer it is given (and restores the operand's words: bounded check under C18).
+//@ func ToPreallocatedBytes
+//@ assumed
+//@ modifies elems(byte)
+//@ package github.com/nspcc-dev/neo-go/pkg/vm/stackitem
+//@ spec seenOK(w *SerializationContext) bool = w.seen != nil && forallkeys(w.seen, k, has(w.seen, k) ==> 0 <= w.seen[k].itemsCount && w.seen[k].itemsCount <= MaxSerialized + 1)
+//@ func (*SerializationContext).writeArray
+//@ may-panic
+//@ modifies w.limit, w.data, w.uv, w.seen, elems(byte)
+//@ requires w != nil && 0 <= w.limit && w.limit < MaxSerialized && seenOK(w)
+//@ ensures[count] result == nil ==> has(w.seen, item) && w.seen[item].itemsCount == old(w.limit) - w.limit + 1
+//@ ensures[range] result == nil ==> 0 <= w.limit && w.limit <= old(w.limit)
+//@ ensures[seen] result == nil ==> seenOK(w) && w.seen == old(w.seen)
+//@ loop 0 invariant 0 <= w.limit && w.limit <= limit && limit == old(w.limit) && seenOK(w) && w.seen == old(w.seen)
+//@ func (*SerializationContext).serialize
+//@ may-panic
+//@ modifies w.limit, w.data, w.uv, w.seen, elems(byte)
+//@ requires w != nil && 0 <= w.limit && w.limit <= MaxSerialized && seenOK(w)
+//@ ensures[count] result == nil && !old(has(w.seen, item)) && (is(item, *Map) || is(item, *Array) || is(item, *Struct)) ==> has(w.seen, item) && w.seen[item].itemsCount == old(w.limit) - w.limit
+//@ ensures[cached] result == nil && old(has(w.seen, item)) ==> w.limit == old(w.limit) - old(w.seen[item].itemsCount)
+//@ ensures[leaf] result == nil && !old(has(w.seen, item)) && !(is(item, *Map) || is(item, *Array) || is(item, *Struct)) ==> w.limit == old(w.limit) - 1
+//@ ensures[range] result == nil ==> 0 <= w.limit && w.limit <= old(w.limit)
+//@ ensures[seen] result == nil ==> seenOK(w) && w.seen == old(w.seen)
+//@ loop 0 invariant 0 <= w.limit && w.limit <= limit && limit == old(w.limit) - 1 && seenOK(w) && w.seen == old(w.seen)
+// Every top-level serialization starts with the full budget and an empty cache.
+//@ func (*SerializationContext).Serialize
+//@ may-panic
+//@ opt frame off
+//@ requires w != nil && w.seen != nil
+//@ call serialize requires[budget] w.limit == MaxSerialized && forallkeys(w.seen, k, !has(w.seen, k))
